@@ -110,6 +110,17 @@ pub struct CircuitBuilder<F> {
     pub row: Ghost<Seq<F>>,
     pub expr_builder: ExprBuilderStub<F>,
     pub ext_select_sources: SelectSourcesStub,
+    /// configuration flags read by the coefficient (de)composition gadgets; no builder operation changes them (part of `extends`)
+    pub recompose_npo_enabled: bool,
+    pub recompose_coeff_ctl_for_decompose_links: bool,
+    pub decompose_skip_select_provenance: bool,
+    pub ext_recompose_coeffs: CoeffProvenanceStub,
+}
+/// HashMap<ExprId, Vec<ExprId>> provenance cache (contents not modelled)
+pub struct CoeffProvenanceStub { pub _p: () }
+impl CoeffProvenanceStub {
+    #[verifier::external_body]
+    pub fn insert(&mut self, k: ExprId, v: Vec<ExprId>) {}
 }
 
 impl<F: Field> CircuitBuilder<F> {
@@ -124,6 +135,8 @@ impl<F: Field> CircuitBuilder<F> {
         &&& forall|e: ExprId| #[trigger] old.has(e) ==> self.has(e) && self.val(e) == old.val(e)
         &&& (self.sat@ ==> old.sat@)
         &&& forall|e: ExprId| #[trigger] old.bound(e) ==> self.bound(e)
+        &&& self.recompose_npo_enabled == old.recompose_npo_enabled && self.recompose_coeff_ctl_for_decompose_links == old.recompose_coeff_ctl_for_decompose_links
+            && self.decompose_skip_select_provenance == old.decompose_skip_select_provenance
     }
     /// `extends` without new constraints
     pub open spec fn extends_pure(&self, old: &Self) -> bool { self.extends(old) && self.sat@ == old.sat@ && self.chain@ == old.chain@ && self.row@ == old.row@ }
